@@ -1,4 +1,5 @@
 import CrdtModel.Props.C04
+import CrdtModel.Props.C05
 set_option linter.unusedSectionVars false
 /-!
 # C07 — read contexts are exact causal witnesses and derived dots are fresh (top-level Orswot; Map and MVReg below)
@@ -100,5 +101,51 @@ theorem rm_ctx_covers_only_seen (wf : LogWF U) (h : orswotSys.Reach U s K) (c : 
 theorem read_ctx_le_clock (wf : LogWF U) (h : orswotSys.Reach U s K) (m : M) :
     (s.contains m).deriveRmCtx.clock.le s.clock ∧ s.read.deriveRmCtx.clock.le s.clock :=
   ⟨rm_clock_le_add_clock wf h m, VClock.le_refl _⟩
+
+/-! ## Map (top level; any value type): `get`, `keys`, `values`, `iter`, `len`, `is_empty`, `read_ctx` -/
+section map
+open CMap
+variable {K' V VOp : Type} [LinOrd K'] {ops : ValOps V VOp A} {UM L : List (MapOp K' VOp A)} {m : CMap K' V A}
+
+/-- the add context of every Map read entry point is the map clock, which covers every update the replica applied -/
+theorem map_add_clock_covers (wf : LogWF (keyLog UM)) (h : CMap.Reach ops UM m L) {d : Dot A} {k : K'} {o : VOp}
+    (hin : MapOp.up d k o ∈ L) : d.counter ≤ m.readCtx.addClock.get d.actor := by
+  have r := (keys_rep wf h).2
+  show d.counter ≤ m.clock.get d.actor
+  rw [show m.clock = m.keysView.clock from rfl, r.clock]
+  exact le_clk (C05.add_mem_keyLog_mpr hin).1
+
+/-- element-level remove context (`get`, and `keys` via `C05.keys_entry`) = exactly the key's surviving update witnesses -/
+theorem map_get_rm_clock (wf : LogWF (keyLog UM)) (h : CMap.Reach ops UM m L) (k : K') (a : A) :
+    (m.get k).rmClock.get a = E (keyLog L) k a := C05.get_rm_clock wf h k a
+
+/-- never exceeds the add context -/
+theorem map_rm_clock_le_add_clock (wf : LogWF (keyLog UM)) (h : CMap.Reach ops UM m L) (k : K') :
+    (m.get k).rmClock.le (m.get k).addClock := by
+  intro a
+  rw [map_get_rm_clock wf h]
+  show _ ≤ m.clock.get a
+  rw [show m.clock = m.keysView.clock from rfl, (keys_rep wf h).2.clock a]
+  exact E_le_clk _ k a
+
+/-- whole-structure reads (`len`, `is_empty`, `read_ctx`): remove context = add context -/
+theorem map_whole_read_rm_clock : m.len.rmClock = m.len.addClock ∧ m.isEmpty.rmClock = m.isEmpty.addClock ∧
+    m.readCtx.rmClock = m.readCtx.addClock := ⟨rfl, rfl, rfl⟩
+
+/-- **freshness** of the dot derived for actor `i` at a replica that knows all of `i`'s own updates -/
+theorem map_derived_dot_fresh (wf : LogWF (keyLog UM)) (h : CMap.Reach ops UM m L) (i : A)
+    (own : ∀ d k o, MapOp.up d k o ∈ UM → d.actor = i → MapOp.up d k o ∈ L) :
+    (m.readCtx.deriveAddCtx i).dot = ⟨i, clk (keyLog L) i + 1⟩ ∧
+    ∀ d k o, MapOp.up d k o ∈ UM → d.actor = i → d.counter < (m.readCtx.deriveAddCtx i).dot.counter := by
+  have hc : m.clock.get i = clk (keyLog L) i := by
+    rw [show m.clock = m.keysView.clock from rfl]; exact (keys_rep wf h).2.clock i
+  have hdot : (m.readCtx.deriveAddCtx i).dot = ⟨i, clk (keyLog L) i + 1⟩ := by
+    simp only [ReadCtx.deriveAddCtx, CMap.readCtx, VClock.inc, VClock.dot, Dot.inc]; rw [hc]
+  refine ⟨hdot, fun d k o hu ha => ?_⟩
+  rw [hdot]
+  have := le_clk (C05.add_mem_keyLog_mpr (own d k o hu ha)).1
+  rw [ha] at this; simp only; omega
+
+end map
 
 end Crdt.C07
